@@ -260,11 +260,12 @@ class ClimateNetwork(GeoNetwork):
         A = np.array(graph.get_adjacency(type=2).data)
 
         #  Extract node weights
-        if "node_weight_nsi" in graph.vs.attribute_names():
-            node_weights = np.array(
-                graph.vs.get_attribute_values("node_weight_nsi"))
-        else:
-            node_weights = None
+        #  (the GML format strips underscores from attribute names)
+        node_weights = None
+        for key in ("node_weight_nsi", "nodeweightnsi"):
+            if key in graph.vs.attribute_names():
+                node_weights = np.array(graph.vs.get_attribute_values(key))
+                break
 
         #  Create ClimateNetwork instance
         net = ClimateNetwork(grid=grid, similarity_measure=similarity_measure,
